@@ -1,7 +1,7 @@
 (* Direct oracles for C08: the property statement evaluated on implementation outputs, written
    against the spec-level notions (balanced residue, exact carry identity), not against the model.
    Result: 1 = holds, 0 = fails, 2 = no statement for this record (outside the guard). *)
-From PV Require Import Base.MachineInt Model.Znx Model.C08Run.
+From PV Require Import Base.MachineInt Model.Znx Model.Limbs Model.Flat Model.C08Run.
 Open Scope Z_scope.
 
 Definition forall2b {A B} (f : A -> B -> bool) (l1 : list A) (l2 : list B) : bool :=
@@ -23,6 +23,41 @@ Definition final_ok (w b lsh a c xd : Z) : bool :=
 
 Definition z4 {A} (l1 l2 l3 l4 : list A) := combine (combine (combine l1 l2) l3) l4.
 
+(* ---- spec level: value of a limb vector on the torus, as an integer scaled by 2^P ---- *)
+Definition val_scaled (P b : Z) (limbs : list Z) : Z :=
+  fst (fold_left (fun (s : Z * Z) x => (fst s + x * 2 ^ (P - (snd s + 1) * b), snd s + 1)) limbs (0, 0)).
+(* distance on R/Z of a scaled value *)
+Definition tor_abs (P x : Z) : Z := Z.abs (wrap P x).
+Definition all_hr (l : list Z) : bool := forallb (fun x => Z.abs x <=? 2 ^ 60) l.
+Definition all_bal (b : Z) (l : list Z) : bool := forallb (balanced b) l.
+
+(* one coefficient: out represents  keep*r0 + sgn * a * 2^off  (mod 1) within one unit of out's last limb,
+   exactly when nothing is truncated; digits balanced when required *)
+Definition coeff_ok (rb ab off keep sgn : Z) (need_bal : bool) (a r0 out : list Z) : Z :=
+  if negb (all_hr a && (all_hr r0 || (keep =? 0))) then 2 else
+  let rsz := Z.of_nat (length out) in let asz := Z.of_nat (length a) in
+  let P := rsz * rb + asz * ab + Z.abs off + 2 in
+  let A := val_scaled (P + off) ab a in
+  let R0 := val_scaled P rb r0 in
+  let R := val_scaled P rb out in
+  let D := tor_abs P (R - keep * R0 - sgn * A) in
+  let unit := 2 ^ (P - rsz * rb) in
+  let exact := (asz * ab - off <=? rsz * rb) in
+  ob ((D <=? unit) && (negb exact || (D =? 0)) && (negb need_bal || all_bal rb out)).
+
+Fixpoint min_verdict (l : list Z) : Z :=
+  match l with [] => 1 | x :: t => let m := min_verdict t in if x =? 0 then 0 else if m =? 0 then 0 else if x =? 2 then 2 else m end.
+
+Definition vec_oracle (ps : list Z) (vs outs : list (list Z)) (rb ab off keep sgn : Z) (need_bal inplace : bool) : Z :=
+  let rs := rshape ps in let as_ := if inplace then rshape ps else ashape ps in
+  let res0 := v vs 0 in let a := if inplace then v vs 0 else v vs 1 in let res1 := v outs 0 in
+  if negb (Nat.eqb (length res0) (length res1)) then 0 else
+  let al := transpose (s_n rs) (col_limbs (s_n as_) (s_cols as_) (s_size as_) a (s_col as_)) in
+  let r0l := transpose (s_n rs) (col_limbs (s_n rs) (s_cols rs) (s_size rs) res0 (s_col rs)) in
+  let r1l := transpose (s_n rs) (col_limbs (s_n rs) (s_cols rs) (s_size rs) res1 (s_col rs)) in
+  min_verdict (map (fun q => coeff_ok rb ab off keep sgn need_bal (fst (fst q)) (snd (fst q)) (snd q))
+                   (combine (combine al r0l) r1l)).
+
 Definition oracle_c08 (code : Z) (ps : list Z) (vs outs : list (list Z)) : Z :=
   let w := 64 in
   match code with
@@ -38,5 +73,15 @@ Definition oracle_c08 (code : Z) (ps : list Z) (vs outs : list (list Z)) : Z :=
             (combine (v vs 0) (v vs 1)) (combine (v outs 0) (v outs 1)))
   | 8017 => let b := p ps 1 in let l := p ps 2 in
       ob (forall2b (fun ac x => final_ok w b l (fst ac) (snd ac) x) (combine (v vs 0) (v vs 1)) (v outs 0))
+  | 8101 => vec_oracle ps vs outs (p ps 10) (p ps 11) (p ps 12) 0 1 (p ps 10 =? p ps 11) false
+  | 8102 => vec_oracle ps vs outs (p ps 10) (p ps 10) 0 0 1 true true
+  | 8103 => vec_oracle ps vs outs (p ps 10) (p ps 10) (p ps 11) 0 1 true true
+  | 8104 => vec_oracle ps vs outs (p ps 10) (p ps 10) (p ps 11) 0 1 true false
+  | 8105 => vec_oracle ps vs outs (p ps 10) (p ps 10) (p ps 11) 1 1 false false
+  | 8106 => vec_oracle ps vs outs (p ps 10) (p ps 10) (p ps 11) 1 (-1) false false
+  | 8107 => vec_oracle ps vs outs (p ps 10) (p ps 10) (- p ps 11) 0 1 true true
+  | 8108 => vec_oracle ps vs outs (p ps 10) (p ps 10) (- p ps 11) 0 1 true false
+  | 8109 => vec_oracle ps vs outs (p ps 10) (p ps 10) (- p ps 11) 1 1 false false
+  | 8110 => vec_oracle ps vs outs (p ps 10) (p ps 10) (- p ps 11) 1 (-1) false false
   | _ => 2
   end.
